@@ -34,9 +34,13 @@ func (*DeflateCompress) Compress(data []byte) ([]byte, error) {
 		log.Error(err)
 		return nil, err
 	}
-	defer fw.Close()
-	fw.Write(data)
-	fw.Flush()
+	if _, err := fw.Write(data); err != nil {
+		return nil, err
+	}
+	// the stream is complete only after Close: take the bytes afterwards
+	if err := fw.Close(); err != nil {
+		return nil, err
+	}
 	return buf.Bytes(), nil
 }
 
